@@ -431,7 +431,9 @@ package parser
 //@   ensures [eof] result.Type == TokenEOF ==> l.pos == len(l.input)
 //@   modifies l.pos, l.column, l.line, l.atStart
 
-//@ pred ParInv(p) := p != nil && p.lexer != nil && LexInv(p.lexer) && Pos16(p.lexer) && (p.current.Type == TokenEOF ==> p.lexer.pos == len(p.lexer.input))
+//@ pred PosIn(q, n) := q.Line >= 1 && q.Column >= 1 && q.Line <= n + 1 && q.Column <= n + 1
+//@ pred ErrOK(p) := forall k int :: {p.errors[k]} 0 <= k && k < len(p.errors) ==> PosIn(p.errors[k].Pos, len(p.lexer.input))
+//@ pred ParInv(p) := p != nil && p.lexer != nil && LexInv(p.lexer) && Pos16(p.lexer) && (p.current.Type == TokenEOF ==> p.lexer.pos == len(p.lexer.input)) && PosIn(p.current.Pos, len(p.lexer.input)) && ErrOK(p)
 //@ pred MuLe(p) := 2 * (len(p.lexer.input) - p.lexer.pos) + ite(p.current.Type != TokenEOF, 1, 0) <= old(2 * (len(p.lexer.input) - p.lexer.pos) + ite(p.current.Type != TokenEOF, 1, 0))
 //@ pred MuLt(p) := 2 * (len(p.lexer.input) - p.lexer.pos) + ite(p.current.Type != TokenEOF, 1, 0) < old(2 * (len(p.lexer.input) - p.lexer.pos) + ite(p.current.Type != TokenEOF, 1, 0))
 //@ pred Mu(p) := 2 * (len(p.lexer.input) - p.lexer.pos) + ite(p.current.Type != TokenEOF, 1, 0)
@@ -439,7 +441,7 @@ package parser
 
 //@ func (*Parser).advance
 //@   props C06
-//@   requires p != nil && p.lexer != nil && LexInv(p.lexer) && Pos16(p.lexer)
+//@   requires p != nil && p.lexer != nil && LexInv(p.lexer) && Pos16(p.lexer) && ErrOK(p)
 //@   ensures [inv] ParInv(p) && PFrame(p)
 //@   ensures [le] MuLe(p)
 //@   ensures [lt] old(p.current.Type) != TokenEOF ==> MuLt(p)
@@ -464,6 +466,7 @@ package parser
 //@ func (*Parser).errorAt
 //@   props C06
 //@   requires ParInv(p)
+//@   requires [validpos] PosIn(pos, len(p.lexer.input))
 //@   ensures [inv] ParInv(p) && PFrame(p) && p.current == old(p.current) && p.lexer.pos == old(p.lexer.pos)
 //@   modifies p.errors
 
@@ -602,3 +605,4 @@ package parser
 //@ func Parse
 //@   props C06
 //@   ensures [nonnil] result0 != nil && fresh(result0)
+//@   ensures [C08:errpos] forall k int :: {result1[k]} 0 <= k && k < len(result1) ==> PosIn(result1[k].Pos, len(input))
